@@ -1,6 +1,7 @@
 import TxVerif.Props.C04
 import TxVerif.Tie.Skeleton
 import TxVerif.Props.C04C07Engine
+import TxVerif.Props.C03History
 open TxVerif
 #print axioms alloc_fresh_c04
 #print axioms alloc_not_in_use
@@ -14,3 +15,11 @@ open TxVerif
 #print axioms c04_content_only_by_write_abort
 #print axioms c04_content_only_by_write_failed
 #print axioms c04_history_alloc_fresh_partial
+#print axioms engInvO_of_engInv
+#print axioms engInvO_create_any
+#print axioms c03o_commit_invariant
+#print axioms runTxnO_inv
+#print axioms c04o_alloc_fresh
+#print axioms c04o_owned_never_returned
+#print axioms c04o_alloc_below_limit
+#print axioms c04_history_alloc_fresh
